@@ -50,8 +50,35 @@ def check(case):
     labels = ["family:" + fam, "dense:on" if case["dense"] else "dense:off", "backward" if backward else "forward"]
     a, f, y0 = traj.make_system(case)
     targets = ([case["t0"] + case["cut"] * (case["tf"] - case["t0"])] if case["cut"] else []) + [None]
+    before = None
     for tg in targets:
+        if before is not None:
+            pass
         err = traj.run_integrate(a, tg, step_limit=len(a) + 1500)
+        if err is None and before is not None:
+            # the first lookup after the continuing call repeats the last lookup before it, bit for bit
+            try:
+                again = a[np.float64(before[0])]
+                if float(again.t) != before[1] or not np.array_equal(np.asarray(again.y), before[2]):
+                    return [V("lookup_changed_by_continuation", "system[{!r}] was (t={!r}, y={}) before the continuing call and is (t={!r}, y={}) after it".format(
+                        before[0], before[1], before[2].tolist(), float(again.t), np.asarray(again.y).tolist()), ("backward" if backward else "forward") + (":dense" if case["dense"] else ":nodense"), **attrs)], dict(nontrivial=False, labels=labels)
+            except Exception as e:
+                if exc_origin(e)[0] == "harness":
+                    raise
+                return [V("time_lookup_raised", "system[{!r}] after a continuing call raised {!r}".format(before[0], e), exc_sig(e), **attrs)], dict(nontrivial=False, labels=labels)
+            before = None
+        if err is None and tg is not None and len(a) >= 3:
+            tt_ = np.asarray(a.t, dtype=np.float64)
+            # strictly inside the part integrated so far (away from its moving end, where nearest-sample answers legitimately change)
+            qb = float(tt_[1] + case["qfrac"][0] * 0.5 * (tt_[len(tt_) // 2] - tt_[1])) if case["qfrac"][0] > 0.3 else float(tt_[len(tt_) // 2 - 1] if len(tt_) > 3 else tt_[1])
+            try:
+                got_b = a[np.float64(qb)]
+                before = (qb, float(got_b.t), np.array(got_b.y, dtype=np.float64, copy=True))
+                labels.append("lookup_before_continuation")
+            except Exception as e:
+                if exc_origin(e)[0] == "harness":
+                    raise
+                return [V("time_lookup_raised", "system[{!r}] between two calls raised {!r}".format(qb, e), exc_sig(e), **attrs)], dict(nontrivial=False, labels=labels)
         if err is not None:
             if isinstance(err, traj.StepCap):
                 return [], dict(nontrivial=False, labels=labels + ["capped"])
